@@ -1,5 +1,6 @@
 """C13 -- structured-grid numbering, connectivity and shape functions (E1 lattice explorer)."""
 import itertools
+import os
 import numpy as np
 from pmc.refs import fe
 from pmc.engine.tol import alg_close, exact_equal
@@ -206,6 +207,23 @@ def execute(case):
         ref = np.zeros(2 ** dim)
         ref[a] = 1.0
         chk(alg_close(N, ref, scale=1.0), 'shape_fun_kronecker', a=a, got=N)
+
+    # the geometry belongs to the domain, not to what was last done with it: writing a (scaled) result file leaves
+    # element sizes, node positions and shape functions as they were
+    import tempfile
+    with tempfile.TemporaryDirectory(prefix='pmc_c13_') as td:
+        try:
+            dom.write_to_vti({'rho': np.linspace(0.0, 1.0, dom.nel)}, os.path.join(td, 'g.vti'), scale=2.5)
+            wrote = True
+        except Exception:  # noqa   (file writing itself is judged by C20)
+            wrote = False
+    if wrote:
+        chk(exact_equal(np.asarray(dom.element_size, dtype=float), np.asarray(sz, dtype=float)), 'geometry_after_write',
+            what='element_size', got=np.asarray(dom.element_size), want=list(sz))
+        chk(alg_close(dom.get_node_position(), pos), 'geometry_after_write', what='node_position')
+        p0 = pts[1]
+        chk(alg_close(dom.eval_shape_fun_der(p0), fe.shape_fun_der(dim, sz, p0), scale=1.0 / min(sz[:dim])),
+            'geometry_after_write', what='shape_fun_der')
 
     return {'states': 1, 'transitions': nchecks, 'checks': nchecks,
             'nontrivial': dom.nel > 1 or dim == 3, 'key': f"{nx}x{ny}x{nz}|{sz}",
